@@ -105,7 +105,7 @@ func (ip *Interp) ensureInit(pkg *ssa.Package) {
 	func() {
 		defer func() {
 			if r := recover(); r != nil {
-				if pe, ok := r.(*PathEnd); ok && pe.kind == "unsupported" {
+				if pe, ok := r.(*PathEnd); ok && (pe.kind == "unsupported" || pe.kind == "unwind") {
 					ip.note("init of " + pkg.Pkg.Path() + " partially executed: " + pe.msg)
 					return
 				}
@@ -168,7 +168,7 @@ func (ip *Interp) lenient(fr *Frame, ins ssa.Instruction) {
 		if r := recover(); r != nil {
 			pe, ok := r.(*PathEnd)
 			_, isPanic := r.(*GoPanic)
-			if (ok && pe.kind == "unsupported") || isPanic {
+			if (ok && (pe.kind == "unsupported" || pe.kind == "unwind")) || isPanic {
 				ip.depth = depth
 				if v, isV := ins.(ssa.Value); isV {
 					func() {
